@@ -22,8 +22,8 @@ ASSUME = [
     "the number of addressed peers T is observable only for put_record_to_peers (all given peers are routing-table entries of "
     "the local node); for put_record / start_providing the monitor demands at least one receipt (lenient side)",
     "the query engine is abstracted to its guarantee (C15): a lookup ends once every contacted peer was answered or reported "
-    "failed; the connection manager is assumed to give every accepted dial one outcome (C05) - where it does not "
-    "(outbound-established-rejected-by-limit) the hang is attributed to that known finding",
+    "failed; the connection manager is assumed to give every accepted dial one outcome (C05; true at the outgoing "
+    "connection limit since /repo commits 7c774cf and 6dd408e - a hang there would be reported under the C05 signatures)",
     "TLC bounds: 3 target peers and one operation of every kind with quorums One / N(2) / All (2 peers and 2 concurrent "
     "operations in the thorough tier); idle connections are eventually closed (keep-alive)",
 ]
@@ -34,7 +34,7 @@ MC_BASE = {"Peers": {"p1", "p2", "p3"}, "Qs": {1}, "Kinds": set(ALLK), "Quorums"
 MC_INV = ["SPECIFICATION Spec", "INVARIANTS MonOK QuiesceOK OwedCovered Shape", "CHECK_DEADLOCK FALSE"]
 MC_STRICT = ["SPECIFICATION Spec", "INVARIANTS MonStrict QuiesceStrict OwedStrict Shape", "CHECK_DEADLOCK FALSE"]
 MUTS = ["dialfail_no_report", "closed_no_report", "exfail_no_report", "assume_without_send", "double_terminal",
-        "quorum_off_by_one", "hdial_dropped"]
+        "quorum_off_by_one", "hdial_dropped", "limit_reject_silent"]
 
 
 def mc_runs(ctx):
@@ -62,6 +62,56 @@ def mc_runs(ctx):
 
 # --------------------------------------------------------------------------- scenarios
 
+CONCRETE = {"healthy": [None], "undialable": ["undialable", "refusing", "dropbefore"], "noaddr": ["noaddr"], "nokad": ["nokad"],
+            "silent": ["silent", "silentput"], "dropafter": ["dropconn", "droprecv"]}
+
+
+def placements(ctx, npeers):
+    """Fault placements enumerated by TLC: the initial states of KadOpsMC (role of every target peer x operation kind x
+    quorum), reduced to multisets of roles."""
+    consts = dict(MC_BASE, Peers={"p%d" % (i + 1) for i in range(npeers)}, Roles="<- PlacementRoles", Limit=False)
+    behs, st = tlc_generate(ctx, "KadOpsMC.tla", write_cfg(ctx, "gen%d.cfg" % npeers, consts, ["INIT GenInit", "NEXT GenNext", "CHECK_DEADLOCK FALSE"]))
+    seen, out = set(), []
+    for b in behs:
+        roles = tuple(sorted(b["roles"].values()))
+        op = b["ops"][0]
+        k = (roles, op["kind"], op["quorum"])
+        if k not in seen:
+            seen.add(k)
+            out.append(k)
+    return out, st
+
+
+def placement_scenarios(ctx, pl):
+    """one real network per placement: two ordinary nodes + one node per model peer"""
+    S, cyc = [], {}
+    for roles, kind, quorum in pl:
+        if all(r == "healthy" for r in roles):
+            continue
+        conc = []
+        for r in roles:
+            i = cyc.get(r, 0)
+            cyc[r] = i + 1
+            conc.append(CONCRETE[r][i % len(CONCRETE[r])])
+        slow = [c for c in conc if c in ("silent", "silentput")]
+        if slow:
+            # every silent placement costs 15 s and more of real time: a third of the operations each (all of them over the run)
+            i = cyc.get("slowpick", 0)
+            cyc["slowpick"] = i + 1
+            if i % 3 != (ctx.seed % 3) and not ctx.quick():
+                continue
+        nodes = [dict(H), dict(H)] + [dict(H) if c is None else fault(c) for c in conc]
+        tg = list(range(3, 3 + len(roles)))
+        op = {"kind": kind, "quorum": "n" if quorum == "n2" else quorum, "n": 2}
+        if kind == "put_to":
+            op["targets"] = [1] + tg
+        if kind == "get":
+            op["holders"] = [1, 2]
+        if kind == "get_providers":
+            op["holders"] = [1]
+        S.append(mk("tlc-%s-%s-%s" % ("+".join(c or "healthy" for c in conc), kind, op["quorum"]), nodes, [op]))
+    return S
+
 H = {"role": "kad", "known": True, "learn": True}
 FAULTS = {
     "undialable": {"role": "undialable"},
@@ -85,8 +135,8 @@ def deadline(nodes, ops):
     t = 0
     for n in nodes:
         t = max(t, SLOW.get(n.get("fault", ""), 0))
-    # a silent peer may be waited for in the lookup and again in the send phase
-    phases = 2 if any(o["kind"] in ("put", "provide") for o in ops) and any(n.get("fault") in ("silent", "silentput") for n in nodes) else 1
+    # a peer that answers lookups but nothing else is waited for in the lookup of others and again in the send phase
+    phases = 2 if any(o["kind"] in ("put", "provide") for o in ops) and any(n.get("fault") == "silentput" for n in nodes) else 1
     return (3 * t * phases + 30) * 1000
 
 
@@ -110,27 +160,29 @@ def op_variants(fault_idx, nh):
     v.append({"kind": "get", "quorum": "one", "holders": [2]})
     v.append({"kind": "get", "quorum": "all", "holders": [1, 2]})
     v.append({"kind": "get_providers", "holders": [1]})
+    # the local node already holds the record / is a provider itself (holder 0)
+    v.append({"kind": "get", "quorum": "one", "holders": [0]})
+    v.append({"kind": "get", "quorum": "all", "holders": [0, 1]})
+    v.append({"kind": "get_providers", "holders": [0, 2]})
     return v
 
 
-def scenarios(ctx):
+def scenarios(ctx, pl=()):
     rnd = random.Random(ctx.seed)
     S = []
     names = list(FAULTS)
     if ctx.quick():
-        # a few operations per fault role and knowledge mode
+        # TLC placements with one fault slot; every silent placement costs 15 s and more: two networks in the quick tier
+        for sc in placement_scenarios(ctx, pl):
+            if any(n.get("fault") in ("silent", "silentput") for n in sc["nodes"]):
+                continue
+            S.append(sc)
         for f in names:
-            ops = op_variants(4, 3)
             if f in ("silent", "silentput"):
-                # every silent placement costs 15 s and more: two networks in the quick tier
                 op = {"kind": "put_to", "quorum": "all", "targets": [1, 4]} if f == "silent" else {"kind": "put", "quorum": "all"}
                 # the silent peer is also a lookup candidate: FIND_NODE read time-out next to the PUT_VALUE one
                 S.append(mk("%s-direct-%s+find_node" % (f, op["kind"]), [dict(H), dict(H), dict(H), fault(f)], [op, {"kind": "find_node"}]))
                 continue
-            pick = [o for o in ops if (o["kind"], o.get("quorum")) in (("find_node", None), ("put", "one"), ("provide", "n"), ("get", "all"))]
-            pick.append({"kind": "put_to", "quorum": "all", "targets": [1, 4]})
-            for op in pick:
-                S.append(mk("%s-direct-%s-%s" % (f, op["kind"], op.get("quorum", "")), [dict(H), dict(H), dict(H), fault(f)], [op]))
             for op in ({"kind": "put", "quorum": "all"}, {"kind": "get_providers", "holders": [1]}):
                 S.append(mk("%s-discovered-%s" % (f, op["kind"]), [dict(H), dict(H), dict(H), fault(f, known=False)], [op]))
             S.append(mk("%s-warm-provide" % f, [dict(H), dict(H), dict(H), fault(f)], [{"kind": "provide", "quorum": "all"}], warm=True))
@@ -143,7 +195,9 @@ def scenarios(ctx):
                     [o for o in op_variants(4, 3) if o.get("quorum", "one") in ("one", "all")][:7]))
         S += limit_scenarios()
         S.append(mk("healthy-all-kinds", [dict(H), dict(H), dict(H), dict(H)], op_variants(4, 4)[:8] + [{"kind": "get_providers", "holders": [3]}]))
+        S.append(mk("local-holder-undialable", [dict(H), dict(H), fault("undialable")], op_variants(3, 2)[-3:]))
     else:
+        S += placement_scenarios(ctx, pl)
         for f in names:
             slow = f in ("silent", "silentput")
             ops = op_variants(4, 3)
@@ -377,11 +431,14 @@ def coverage(scen, diags, lines, mc, summ, nseg, nev):
             res = "none" if not o["terms"] else ("ok" if o["terms"][0]["ok"] else "failed")
             outcomes[res] = outcomes.get(res, 0) + 1
     samples = []
-    for s in scen[:400]:
-        d = diags.get(s["id"])
-        if d and (s["name"].startswith(("noaddr-put_to", "silent-direct", "limit-rac", "dropconn", "inbound-only-slow")) or len(samples) < 2) and len(samples) < 6:
-            samples.append({"scenario": s["name"], "nodes": [n.get("fault", n["role"]) for n in s["nodes"]], "limit": s.get("limit"),
-                            "ops": [{k: o[k] for k in ("kind", "quorum", "targets", "terms", "recv_at")} for o in d["ops"]]})
+    for pre in ("tlc-noaddr-put_to", "noaddr-put_to", "silent-direct", "silentput-direct", "limit-racing", "limit-reached", "tlc-dropconn-put-",
+                "tlc-refusing-find_node", "tlc-nokad+", "inbound-only-slow", "healthy-all-kinds"):
+        for s in scen:
+            d = diags.get(s["id"])
+            if d and not d.get("discarded") and s["name"].startswith(pre):
+                samples.append({"scenario": s["name"], "nodes": [n.get("fault", n["role"]) for n in s["nodes"]], "limit": s.get("limit"),
+                                "ops": [{k: o[k] for k in ("kind", "quorum", "targets", "terms", "recv_at")} for o in d["ops"][:4]]})
+                break
     nops = sum(1 for ln in lines if '"e":"cmd"' in ln)
     return {
         "states": sum(m["distinct"] for m in mc),
@@ -409,11 +466,15 @@ def coverage(scen, diags, lines, mc, summ, nseg, nev):
 def check(ctx):
     mc = mc_runs(ctx)
     build_s = cargo_build(ctx, ["kadops"])
-    scen = scenarios(ctx)
+    pl, gstats = placements(ctx, 1 if ctx.quick() else 2)
+    log("GEN placements: %s" % gstats)
+    scen = scenarios(ctx, pl)
     summ, lines, diags = run_all(ctx, scen)
     log("HARNESS: %s (build %ss, %d scenarios)" % ({k: v for k, v in summ.items() if k != "errors"}, build_s, len(scen)))
     nseg, nev, rejects, violations = judge(ctx, scen, lines, diags)
     cov = coverage(scen, diags, lines, mc, summ, nseg, nev)
+    cov["generation"] = gstats
+    cov["placements_from_tlc"] = sum(1 for x in scen if x["name"].startswith("tlc-"))
     missing = [f for f in list(FAULTS) + ["limit-reached", "limit-racing"] if not cov["fault_roles_exercised"].get(f)]
     missing += [k for k in ALLK if not cov["operation_kinds_exercised"].get(k)]
     if missing:
